@@ -314,6 +314,21 @@ func oneLoop(run *harness.Run, key string, r *rand.Rand, c loopCfg) {
 		return
 	}
 
+	// pipeline / parallel: the frontier coordinator flushes every 100 ms and then deletes the journal
+	// records it covered with STAND-ALONE commands (DEL …:commit:…, ZREM …:index:…).  Give both
+	// links the chance to do so before the sentinels, so that the opposite link meets those
+	// bookkeeping commands in the stream while it is still judged.  Coverage only: no verdict
+	// depends on the flush having happened.
+	if c.Mode.UsesFrontier() {
+		deadline := time.Now().Add(600 * time.Millisecond)
+		for (A.gcSeen.Load() == 0 || B.gcSeen.Load() == 0) && time.Now().Before(deadline) && !A.echoSeen.Load() && !B.echoSeen.Load() {
+			time.Sleep(5 * time.Millisecond)
+		}
+		if A.gcSeen.Load() > 0 && B.gcSeen.Load() > 0 {
+			run.Count("loops_with_journal_cleanup_in_both_streams", 1)
+		}
+	}
+
 	// ---- sentinels: S1, S2, then K quiet rounds
 	round := func(k int) string {
 		ids := map[string]string{}
